@@ -16,7 +16,7 @@
    unwinds out of the vacant branch with the table exactly as it was; the occupied branch never
    converts. *)
 From Coq Require Import ZArith List Bool Lia.
-From HB Require Import RsPrelude Sse2 Gen Group Raw Map.
+From HB Require Import RsPrelude Sse2 Gen Group Raw Map Replace.
 Import ListNotations.
 Open Scope nat_scope.
 
@@ -51,4 +51,24 @@ Section IterIntoPanic.
                         (fun _ i e => t1 <- slot_write kv t i (mkKV (k_id e) (k_stamp e) v) ;; Ok (t1, OutVal (v_val e), []))
     | ERefDrop => m_entry B hash_of t k (fun _ _ _ => Ok (t, OutBool true, [])) (fun _ => Ok (t, OutBool false, []))
     end.
+  (* ------------------------------------------------------------------------------------------ *)
+  (* closures handed to ENTRY methods that panic.
+       OccupiedEntry::replace_entry_with(f) / Entry::and_replace_entry_with(f) (and the raw_entry_mut
+       twins) call RawTable::replace_bucket_with with the adapter closure
+            |(key, value)| if let Some(v) = f(&key, value) { Some((key, v)) } else { spare_key = Some(key); None }
+       replace_bucket_with has already REMOVED the element when the closure runs (Model/Replace.v);
+       a panic of f unwinds from there: the value is dropped by f's frame, the key by the adapter's,
+       nothing is written back -- the state of the `None` branch.  On a vacant entry f never runs.
+       Entry::and_modify(f) runs f(&mut v) on an occupied entry only (a panic before f writes
+       leaves everything as it was) and then or_insert(v) inserts on a vacant one. *)
+  Definition m_entry_replace_p (t : table kv) (k : Z) : res Map.result :=
+    m_entry B hash_of t k
+      (fun _ i _ => '(t1, _, item) <- replace_bucket_with B kv t i (fun _ => None) ;;
+                    Ok (t1, OutUnwind, if needs_drop then [EvDrop item] else []))
+      (fun _ => Ok (t, OutNone, [])).
+
+  Definition m_entry_and_modify_p (t : table kv) (k stamp v : Z) : res Map.result :=
+    m_entry B hash_of t k
+      (fun _ _ _ => Ok (t, OutUnwind, []))
+      (fun h => vacant_insert B tsize talign needs_drop guard_fix hash_of alloc_refuses t h (mkKV k stamp v) (OutVal v)).
 End IterIntoPanic.
